@@ -119,7 +119,13 @@ func (m *Matcher) pop() {
 }
 
 func (m *Matcher) merge() {
-	m.setBindings = m.setBindings[:len(m.setBindings)-1]
+	n := len(m.setBindings)
+	if n >= 2 {
+		// The bindings of the finished frame stay visible, so the enclosing
+		// frame has to undo them if it fails later.
+		m.setBindings[n-2] |= m.setBindings[n-1]
+	}
+	m.setBindings = m.setBindings[:n-1]
 }
 
 func (m *Matcher) Match(a Pattern, b ast.Node) bool {
